@@ -317,6 +317,12 @@ func (x *router) handleBroadcast(ctx *ReceiveContext) {
 
 	routees, ok := x.availableRoutees()
 	if !ok {
+		if len(x.routeesMap) > 0 {
+			// every routee is suspended, waiting for its supervision directive:
+			// the pool is not empty, only this message cannot be routed
+			ctx.Unhandled()
+			return
+		}
 		x.handleNoRoutees(ctx)
 		return
 	}
@@ -609,12 +615,18 @@ func routeeName(index int, routerName string) string {
 }
 
 func (x *router) availableRoutees() ([]*PID, bool) {
-	routees := make([]*PID, 0, x.poolSize)
-	for _, routee := range x.routeesMap {
-		if !routee.IsRunning() {
-			delete(x.routeesMap, routee.ID())
+	routees := make([]*PID, 0, len(x.routeesMap))
+	for id, routee := range x.routeesMap {
+		if routee.IsRunning() {
+			routees = append(routees, routee)
+			continue
 		}
-		routees = append(routees, routee)
+		// a suspended routee is waiting for the directive the router applies on
+		// PanicSignal (stop, restart or resume): it stays in the pool but gets no
+		// message; anything else that is not running is gone for good
+		if !routee.IsSuspended() {
+			delete(x.routeesMap, id)
+		}
 	}
 	// map iteration order is unspecified: round-robin needs one fixed enumeration
 	sort.Slice(routees, func(i, j int) bool { return routees[i].ID() < routees[j].ID() })
